@@ -39,8 +39,8 @@ var c08ReadOnly = []string{
 
 func checkC08(c *Ctx) {
 	r, p := c.R, c.P
-	r.Explanation = "Decides structural necessary conditions of C08. (B1) pooled-buffer escape — in the whole module no value that may share memory with a buffer obtained from a sync.Pool (BufPool, the byte-slice pool) is stored into a field/global/heap object, sent on a channel or handed to a goroutine, and none is returned by a function that also gives the buffer back to the pool (a summary-based alias analysis over go/ssa follows slices, cells, helper calls in both directions — the Get and the Put may each live in a helper, a deferred closure or a deferred named function —, callbacks passed as function-typed parameters (also forwarded, kept in locals or captured variables), release functions returned by a borrow helper and called or deferred by its caller, methods of a module interface with a single implementation, and the modelled library calls). A function literal that stores memory derived from its own parameter into a captured variable is an escape for whoever calls it; fields of a non-escaping local struct variable are value flow, not escapes. A call that receives pooled memory and is neither modelled nor followed gives UNDECIDED. A function that obtains a buffer and returns it without ever giving it back hands it over: its callers are judged as holders. Writing into the buffer and passing it to io.Writer.Write / AEAD Seal/Open is allowed by their no-retain contracts. (B2) package-level state inventory — every package-level variable of the module is (a) never stored to and never written through (elements, map entries, appends, in-place library writes, also through same-module helpers that receive it) outside package initialisation, or (b) a sync.Pool used only through Get/Put (also through helpers that receive its address), or (c) a synchronisation object, or (d) mutated after initialisation but then every access (load, look-up, iteration, update, hand-over to a call) happens while one package-level sync.Mutex/RWMutex of the same package is held (write mode for writes); the guard is inferred, not named: some lock of the package must cover all accesses. The lock held at an access is the must-hold lockset of the lockset engine plus the locks held around the invocation of a callback: a function value whose every use is to be passed to a same-module wrapper runs under the locks the wrapper holds when it calls it (also when the wrapper forwards it to another runner), including a lock the wrapper received as a parameter (*sync.Mutex, *sync.RWMutex, sync.Locker; resolved per call site, RLocker() = read mode); a callback started with go holds nothing. A variable assigned inside a sync.Once.Do callback is accepted when every other access is provably after Do on that Once (else UNDECIDED); further writers still need the lock. A package-level struct that is the only object of its module type is treated field by field the same way (its own mutex fields are candidate guards). The guarded registries found this way are additionally required to be read and updated in one critical section per operation. (B3) byteslicepool.Get hands out only fresh memory or recycled memory that was zeroed over its whole length on every path (must-dataflow; clear(), up/down counted loops in any lowering, zeroing helpers; the recycled value may come from a helper), and Put stores the caller's slice without cutting its length. (B1-release-once) in every function the same pooled object (identified through conversions, single-assignment locals, captured variables, hand-over helpers) is given back at most once on every path: direct Put, deferred Put, Put helpers, deferred function literals and returned release functions all count; VIOLATION when an unconditional release is certain to be followed by another one (a deferred release registered before it, or a dominating earlier release), UNDECIDED when two releases merely may lie on one path. (B2, references) the map/slice/pointer loaded from a guarded variable is followed through results, arguments (also into the targets of function values it is passed to), local and captured variables of same-package functions: every use of the reference anywhere is an access that needs the guard; returning it from an exported function is a violation. (B4) the exported entry points of crypto, crypto/aeskw, crypto/padding, crypto/aescbcaead never write memory reachable from their []byte inputs (elements or spare capacity; the taint engine's write summaries; dst of cipher.AEAD Seal/Open exempt by contract): two calls on separate messages/keys that live in one backing array, or share a key slice, would otherwise change each other's results. NOT decided: data-race freedom in general, 'same results when run concurrently' (needs execution), use of a pooled buffer after an early (non-deferred) Put inside the same function; per-object state is covered by C13/C14."
-	r.Assumptions = append(r.Assumptions, "library model table of kitcheck/taint.go; interface calls into the module are covered by the io.Writer / cipher.AEAD contract models", "method calls on package-level objects of library types (loggers, parsers with value receivers) do not mutate shared state", "a package-level variable assigned inside a sync.Once.Do callback is accepted only if every other access is dominated by Do on the same Once (directly, through a same-module function that calls Do on every path, or at every call site of the accessing function); otherwise UNDECIDED", "identities are type-based: a lock is its package-level variable or (type, field); a pool is its variable or (type, field), looked through single-assignment locals", "a module interface with exactly one implementing module type dispatches to that type")
+	r.Explanation = "Decides structural necessary conditions of C08. (B1) pooled-buffer escape — in the whole module no value that may share memory with a buffer obtained from a sync.Pool (BufPool, the byte-slice pool) is stored into a field/global/heap object, sent on a channel or handed to a goroutine, and none is returned by a function that also gives the buffer back to the pool (a summary-based alias analysis over go/ssa follows slices, cells, helper calls in both directions — the Get and the Put may each live in a helper, a deferred closure or a deferred named function —, callbacks passed as function-typed parameters (also forwarded, kept in locals or captured variables), release functions returned by a borrow helper and called or deferred by its caller, methods of a module interface with a single implementation, and the modelled library calls). A function literal that stores memory derived from its own parameter into a captured variable is an escape for whoever calls it; fields of a non-escaping local struct variable are value flow, not escapes. A call that receives pooled memory and is neither modelled nor followed gives UNDECIDED. A function that obtains a buffer and returns it without ever giving it back hands it over: its callers are judged as holders. Writing into the buffer and passing it to io.Writer.Write / AEAD Seal/Open is allowed by their no-retain contracts. (B2) package-level state inventory — every package-level variable of the module is (a) never stored to and never written through (elements, map entries, appends, in-place library writes, also through same-module helpers that receive it) outside package initialisation, or (b) a sync.Pool used only through Get/Put (also through helpers that receive its address), or (c) a synchronisation object, or (d) mutated after initialisation but then every access (load, look-up, iteration, update, hand-over to a call) happens while one package-level sync.Mutex/RWMutex of the same package is held (write mode for writes); the guard is inferred, not named: some lock of the package must cover all accesses. The lock held at an access is the must-hold lockset of the lockset engine plus the locks held around the invocation of a callback: a function value whose every use is to be passed to a same-module wrapper runs under the locks the wrapper holds when it calls it (also when the wrapper forwards it to another runner), including a lock the wrapper received as a parameter (*sync.Mutex, *sync.RWMutex, sync.Locker; resolved per call site, RLocker() = read mode); a callback started with go holds nothing. A variable assigned inside a sync.Once.Do callback is accepted when every other access is provably after Do on that Once (else UNDECIDED); further writers still need the lock. A package-level struct that is the only object of its module type is treated field by field the same way (its own mutex fields are candidate guards). The guarded registries found this way are additionally required to be read and updated in one critical section per operation. (B3) byteslicepool.Get hands out only fresh memory or recycled memory that was zeroed over its whole length on every path (must-dataflow; clear(), up/down counted loops in any lowering, zeroing helpers; the recycled value may come from a helper), and Put stores the caller's slice without cutting its length. (B1-release-once) in every function the same pooled object (identified through conversions, single-assignment locals, captured variables, hand-over helpers) is given back at most once on every path: direct Put, deferred Put, Put helpers, deferred function literals and returned release functions all count; VIOLATION when an unconditional release is certain to be followed by another one (a deferred release registered before it, or a dominating earlier release), UNDECIDED when two releases merely may lie on one path. (B2, references) the map/slice/pointer loaded from a guarded variable is followed through results, arguments (also into the targets of function values it is passed to), local and captured variables of same-package functions: every use of the reference anywhere is an access that needs the guard; returning it from an exported function is a violation. (B4) the exported entry points of crypto, crypto/aeskw, crypto/padding, crypto/aescbcaead never write memory reachable from their []byte inputs (elements or spare capacity; the taint engine's write summaries; dst of cipher.AEAD Seal/Open exempt by contract): two calls on separate messages/keys that live in one backing array, or share a key slice, would otherwise change each other's results. (B5) in packages that use a sync.Pool, an exported function that returns a value gives none of its parameters' memory to a pool (directly or through helpers; release summaries of the alias analysis): only a pure release operation — no results, like ByteSlicePool.Put — takes ownership of caller memory; otherwise the caller, who still owns what it passed in, and the pool's next user share it. (B6) process-wide objects of libraries — package-level variables of other packages, logrus.StandardLogger(), log.Default(), slog.Default() — are not written or reconfigured outside package initialisation: no assignment to such a variable or to a field of such an object, no package-level setter of the library's singleton (logrus.SetOutput…, log.SetOutput…, slog.SetDefault), no Set*/Add*/Replace*/Register*/Reset* method on the object or on a library object built on it, also when it was first stored in a field of a module struct (field-based) and is reached through that field later. NOT decided: data-race freedom in general, 'same results when run concurrently' (needs execution), use of a pooled buffer after an early (non-deferred) Put inside the same function; per-object state is covered by C13/C14."
+	r.Assumptions = append(r.Assumptions, "library model table of kitcheck/taint.go; interface calls into the module are covered by the io.Writer / cipher.AEAD contract models", "method calls on package-level objects of library types (loggers, parsers with value receivers) do not mutate shared state", "a package-level variable assigned inside a sync.Once.Do callback is accepted only if every other access is dominated by Do on the same Once (directly, through a same-module function that calls Do on every path, or at every call site of the accessing function); otherwise UNDECIDED", "identities are type-based: a lock is its package-level variable or (type, field); a pool is its variable or (type, field), looked through single-assignment locals", "a module interface with exactly one implementing module type dispatches to that type", "B6: the table of singleton accessors / package-level setters in prop_c08.go and the reading of library methods named Set*/Add*/Replace*/Register*/Reset* as reconfiguring their receiver")
 	r.Rule("C08.B1-pool-escape", "no value derived from a sync.Pool buffer escapes, or is returned by, a function that gives the buffer back", 2)
 	r.Rule("C08.B2-inventory", "package-level variables: read-only after init, Pool via Get/Put, sync object, or every access under one package-level lock", 30)
 	r.Rule("C08.B3-zeroed", "byteslicepool.Get returns zeroed or fresh memory", 1)
@@ -67,6 +67,12 @@ func checkC08(c *Ctx) {
 	// ---- B4
 	c08B4(p, r, t)
 
+	// ---- B5 / B6
+	r.Rule("C08.B5-borrowed-memory", "an exported function that returns a value gives none of its parameters' memory to a pool: only a pure release operation (no results) takes ownership of caller memory", 2)
+	c08B5(p, r, t)
+	r.Rule("C08.B6-library-singletons", "process-wide objects of libraries (package-level variables of other packages, logrus.StandardLogger(), log.Default(), slog.Default()) are not reconfigured or written outside package initialisation, nor used as the backing object of per-instance state that is", 5)
+	c08B6(p, r)
+
 	c.Fixture("c08pool", func(fp *Prog, fr *Report) {
 		ft := NewTaintEngine(fp)
 		ft.TrackPools = true
@@ -88,6 +94,24 @@ func checkC08(c *Ctx) {
 		for _, o := range fo.Obs {
 			if o.Status == StViolation {
 				fr.Violation("o", strings.TrimSuffix(o.Construct, " gives pooled buffers back")+" twice", "", o.Message)
+			}
+		}
+		// borrowed-memory and library-singleton rules on the same fixture
+		fb := NewReport("fixture:c08pool:b56", "quick")
+		c08B5(fp, fb, ft)
+		c08B6(fp, fb)
+		for _, o := range fb.Obs {
+			if o.Status != StViolation {
+				continue
+			}
+			if strings.HasSuffix(o.Construct, " borrowed inputs") {
+				fr.Violation("b", strings.TrimSuffix(o.Construct, " borrowed inputs")+" releases borrowed memory", "", o.Message)
+				continue
+			}
+			for _, w := range o.Witness {
+				if i := strings.LastIndex(w, " in "); i >= 0 {
+					fr.Violation("s", w[i+4:]+" singleton", "", w)
+				}
 			}
 		}
 		z := &c08Zero{p: fp, t: ft, clean: map[*ssa.Function]*c08ZeroVerdict{}, zp: map[string]int{}}
@@ -636,6 +660,229 @@ func c08B4(p *Prog, r *Report, t *TaintEngine) {
 			} else {
 				r.OK("C08.B4-input-memory", construct, p.Pos(fn.Pos()), fmt.Sprintf("no write reaches the memory of its %d byte-slice input(s)", n))
 			}
+		}
+	}
+}
+
+// ---------------------------------------------------------------- B5 (borrowed memory is not put into a pool)
+
+func c08B5(p *Prog, r *Report, t *TaintEngine) {
+	// packages that deal with pools at all: the rule is about their exported surface
+	poolPkgs := map[*ssa.Package]bool{}
+	for _, fn := range p.Funcs {
+		allInstrs(fn, func(in ssa.Instruction) {
+			if ci, ok := in.(ssa.CallInstruction); ok && (callIs(ci, "sync", "Pool", "Put") || callIs(ci, "sync", "Pool", "Get")) {
+				poolPkgs[fn.Pkg] = true
+			}
+		})
+	}
+	for _, fn := range p.Funcs {
+		if !poolPkgs[fn.Pkg] || fn.Parent() != nil || !isExportedFunc(fn) {
+			continue
+		}
+		sum := t.Sum[fn]
+		if sum == nil {
+			continue
+		}
+		n := 0
+		var rel []string
+		first := 0
+		if fn.Signature.Recv() != nil {
+			first = 1
+		}
+		for i := first; i < len(fn.Params); i++ {
+			pa := fn.Params[i]
+			if !(isTrackedType(pa.Type()) || isRefKind(pa.Type())) || isErrorType(pa.Type()) {
+				continue
+			}
+			n++
+			for _, s := range sum.Releases[fmt.Sprintf("p%d", i)] {
+				rel = append(rel, fmt.Sprintf("%s: %s at %s", pa.Name(), s.What, p.Pos(s.Pos)))
+			}
+		}
+		if n == 0 {
+			continue
+		}
+		construct := FuncName(p, fn) + " borrowed inputs"
+		sort.Strings(rel)
+		switch {
+		case len(rel) == 0:
+			r.OK("C08.B5-borrowed-memory", construct, p.Pos(fn.Pos()), "gives none of its parameters' memory to a pool")
+		case fn.Signature.Results().Len() == 0:
+			r.OK("C08.B5-borrowed-memory", construct, p.Pos(fn.Pos()), "a pure release operation: it takes ownership of what it is given and returns nothing")
+		default:
+			r.Violation("C08.B5-borrowed-memory", construct, p.Pos(fn.Pos()), "the function hands a result to its caller and ALSO puts memory of one of its parameters into a pool: the caller still owns that memory (it may keep using it, or give it back itself), so the same backing array reaches two later users of the pool or is overwritten while still referenced", rel...)
+		}
+	}
+}
+
+// ---------------------------------------------------------------- B6 (process-wide library objects)
+
+// accessors of process-wide singletons, and the operations that reconfigure such an object
+var c08SingletonAccessors = map[string]bool{
+	"github.com/sirupsen/logrus.StandardLogger": true, "log.Default": true, "log/slog.Default": true,
+}
+var c08SingletonSetters = map[string]bool{ // package-level functions that reconfigure the library's own singleton
+	"github.com/sirupsen/logrus.SetOutput": true, "github.com/sirupsen/logrus.SetLevel": true, "github.com/sirupsen/logrus.SetFormatter": true,
+	"github.com/sirupsen/logrus.SetReportCaller": true, "github.com/sirupsen/logrus.AddHook": true,
+	"log.SetOutput": true, "log.SetFlags": true, "log.SetPrefix": true, "log/slog.SetDefault": true, "log/slog.SetLogLoggerLevel": true,
+}
+
+func c08IsMutatorMethod(obj *types.Func) bool {
+	if obj == nil || obj.Type().(*types.Signature).Recv() == nil {
+		return false
+	}
+	n := obj.Name()
+	for _, pre := range []string{"Set", "Add", "Replace", "Register", "Reset"} {
+		if strings.HasPrefix(n, pre) {
+			return true
+		}
+	}
+	return false
+}
+
+func c08B6(p *Prog, r *Report) {
+	fieldHolds := map[FieldID]bool{} // fields of module structs that were assigned a process-wide library object (or one built on it)
+	libGlobal := func(v ssa.Value) bool {
+		g, ok := v.(*ssa.Global)
+		return ok && g.Pkg != nil && g.Pkg.Pkg != nil && !strings.HasPrefix(g.Pkg.Pkg.Path(), p.ModPath)
+	}
+	perPkg := map[string][]string{}
+	pkgsSeen := map[string]bool{}
+	derived := func(fn *ssa.Function) map[ssa.Value]bool {
+		S := map[ssa.Value]bool{}
+		for changed := true; changed; {
+			changed = false
+			allInstrs(fn, func(in ssa.Instruction) {
+				v, ok := in.(ssa.Value)
+				if !ok || S[v] {
+					return
+				}
+				is := false
+				switch x := in.(type) {
+				case *ssa.Call:
+					obj := calleeObj(x)
+					if c08SingletonAccessors[extKey(obj)] {
+						is = true
+					} else if obj != nil && !x.Call.IsInvoke() && len(x.Call.Args) > 0 && S[x.Call.Args[0]] && obj.Type().(*types.Signature).Recv() != nil {
+						// a library method on the object returning another library object built on it (logger.WithFields -> *Entry)
+						if _, isPtr := x.Type().Underlying().(*types.Pointer); isPtr && obj.Pkg() != nil && !strings.HasPrefix(obj.Pkg().Path(), p.ModPath) {
+							is = true
+						}
+					}
+				case *ssa.UnOp:
+					if x.Op != token.MUL {
+						return
+					}
+					_, isPtr := x.Type().Underlying().(*types.Pointer)
+					if !isPtr {
+						return
+					}
+					switch a := x.X.(type) {
+					case *ssa.Global:
+						is = libGlobal(a)
+					case *ssa.FieldAddr:
+						is = S[a.X] || fieldHolds[fieldIDOfAddr(a)]
+					case *ssa.Alloc:
+						for _, rr := range refs(a) {
+							if st, ok := rr.(*ssa.Store); ok && st.Addr == ssa.Value(a) && S[st.Val] {
+								is = true
+							}
+						}
+					}
+				case *ssa.Phi:
+					for _, ed := range x.Edges {
+						if S[ed] {
+							is = true
+						}
+					}
+				case *ssa.ChangeType:
+					is = S[x.X]
+				}
+				if is {
+					S[v] = true
+					changed = true
+				}
+			})
+		}
+		return S
+	}
+	// fixpoint over field assignments (type-based)
+	for round := 0; round < 4; round++ {
+		grew := false
+		for _, fn := range p.Funcs {
+			S := derived(fn)
+			if len(S) == 0 {
+				continue
+			}
+			allInstrs(fn, func(in ssa.Instruction) {
+				if st, ok := in.(*ssa.Store); ok && S[st.Val] {
+					if fa, ok := st.Addr.(*ssa.FieldAddr); ok {
+						if id := fieldIDOfAddr(fa); id.Type != "" && strings.HasPrefix(id.Type, p.ModPath) && !fieldHolds[id] {
+							fieldHolds[id] = true
+							grew = true
+						}
+					}
+				}
+			})
+		}
+		if !grew {
+			break
+		}
+	}
+	for _, fn := range p.Funcs {
+		pkgPath := ""
+		if fn.Pkg != nil && fn.Pkg.Pkg != nil {
+			pkgPath = fn.Pkg.Pkg.Path()
+		}
+		rel := p.RelPath(pkgPath)
+		S := derived(fn)
+		allInstrs(fn, func(in ssa.Instruction) {
+			where := fmt.Sprintf("at %s in %s", p.Pos(instrPos(in)), FuncName(p, fn))
+			switch x := in.(type) {
+			case *ssa.Store:
+				if c08IsInitFunc(fn) {
+					return
+				}
+				if libGlobal(x.Addr) {
+					perPkg[rel] = append(perPkg[rel], "package-level variable "+x.Addr.(*ssa.Global).Pkg.Pkg.Name()+"."+x.Addr.Name()+" of another package assigned "+where)
+				}
+				if fa, ok := x.Addr.(*ssa.FieldAddr); ok && (S[fa.X] || libGlobal(fa.X)) {
+					perPkg[rel] = append(perPkg[rel], "field "+fieldIDOfAddr(fa).Field+" of a process-wide library object assigned "+where)
+				}
+			case ssa.CallInstruction:
+				obj := calleeObj(x)
+				if obj == nil || obj.Pkg() == nil || strings.HasPrefix(obj.Pkg().Path(), p.ModPath) {
+					return
+				}
+				pkgsSeen[rel] = true
+				if c08IsInitFunc(fn) {
+					return
+				}
+				cc := x.Common()
+				if c08SingletonSetters[extKey(obj)] {
+					perPkg[rel] = append(perPkg[rel], "the library's process-wide object is reconfigured by "+shortID(extKey(obj))+" "+where)
+					return
+				}
+				if !cc.IsInvoke() && len(cc.Args) > 0 && S[cc.Args[0]] && c08IsMutatorMethod(obj) {
+					perPkg[rel] = append(perPkg[rel], "a process-wide library object (or an object built on it) is reconfigured by "+obj.Name()+" "+where)
+				}
+			}
+		})
+	}
+	var rels []string
+	for rel := range pkgsSeen {
+		rels = append(rels, rel)
+	}
+	sort.Strings(rels)
+	for _, rel := range rels {
+		construct := "package " + rel + " library singletons"
+		bad := perPkg[rel]
+		sort.Strings(bad)
+		if len(bad) > 0 {
+			r.Violation("C08.B6-library-singletons", construct, rel, "state that every user of the library in the process shares is changed by an operation on one object: independent objects (loggers with different names, …) configure and overwrite each other", bad...)
+		} else {
+			r.OK("C08.B6-library-singletons", construct, rel, "no process-wide library object is written or reconfigured outside package initialisation")
 		}
 	}
 }
